@@ -43,9 +43,65 @@ func zzFormat(which int) format.Format {
 		return f
 	case 4:
 		return &format.G711{PayloadTyp: 0, MULaw: true, SampleRate: 8000, ChannelCount: 1}
-	default:
+	case 5:
 		return &format.MPEGTS{}
+	case 6:
+		return &format.G722{}
+	case 7:
+		br := []int{16, 24, 32, 40}[zzConcretize(zzIntIn("bitrate", 0, 3))]
+		return &format.G726{PayloadTyp: zzPT(), BitRate: br, BigEndian: zzBool("be")}
+	case 8:
+		f := &format.Speex{PayloadTyp: zzPT(), SampleRate: zzIntIn("rate", 1, 99999)}
+		if zzBool("hasVBR") {
+			v := zzBool("vbr")
+			f.VBR = &v
+		}
+		return f
+	case 9:
+		return &format.AC3{PayloadTyp: zzPT(), SampleRate: zzIntIn("rate", 1, 99999), ChannelCount: zzIntIn("ch", 1, 9)}
+	case 10:
+		f := &format.VP9{PayloadTyp: zzPT()}
+		f.MaxFR = zzOptInt("maxfr")
+		f.MaxFS = zzOptInt("maxfs")
+		f.ProfileID = zzOptInt("profile")
+		return f
+	case 11:
+		f := &format.AV1{PayloadTyp: zzPT()}
+		f.LevelIdx = zzOptInt("level")
+		f.Profile = zzOptInt("profile")
+		f.Tier = zzOptInt("tier")
+		return f
+	case 12:
+		return &format.KLV{PayloadTyp: zzPT()}
+	case 13:
+		return &format.MPEG1Audio{}
+	case 14:
+		return &format.MPEG1Video{}
+	case 15:
+		return &format.MJPEG{}
+	case 16:
+		return &format.H264{PayloadTyp: zzPT(), PacketizationMode: zzConcretize(zzIntIn("pm", 0, 2))}
+	case 17:
+		mono := zzConcretize(zzIntIn("mono", 0, 1))
+		return &format.LPCM{PayloadTyp: 10 + uint8(mono), BitDepth: 16, SampleRate: 44100, ChannelCount: 2 - mono}
+	default:
+		return &format.Vorbis{PayloadTyp: zzPT(), SampleRate: zzIntIn("rate", 1, 99999), ChannelCount: zzIntIn("ch", 1, 9), Configuration: zzBytes("conf", 1, 3)}
 	}
+}
+
+func zzOptInt(name string) *int {
+	if !zzBool("has-" + name) {
+		return nil
+	}
+	v := zzIntIn(name, 0, 999)
+	return &v
+}
+
+func zzSameOptInt(a, b *int) bool {
+	if (a == nil) != (b == nil) {
+		return false
+	}
+	return a == nil || *a == *b
 }
 
 func zzSameFormat(a, b format.Format) bool {
@@ -71,6 +127,48 @@ func zzSameFormat(a, b format.Format) bool {
 	case *format.MPEGTS:
 		_, ok := b.(*format.MPEGTS)
 		return ok
+	case *format.G722:
+		_, ok := b.(*format.G722)
+		return ok
+	case *format.G726:
+		y, ok := b.(*format.G726)
+		return ok && zzAnd(x.PayloadTyp == y.PayloadTyp, zzAnd(x.BitRate == y.BitRate, x.BigEndian == y.BigEndian))
+	case *format.Speex:
+		y, ok := b.(*format.Speex)
+		if !ok || (x.VBR == nil) != (y.VBR == nil) {
+			return false
+		}
+		if x.VBR != nil && *x.VBR != *y.VBR {
+			return false
+		}
+		return zzAnd(x.PayloadTyp == y.PayloadTyp, x.SampleRate == y.SampleRate)
+	case *format.AC3:
+		y, ok := b.(*format.AC3)
+		return ok && zzAnd(x.PayloadTyp == y.PayloadTyp, zzAnd(x.SampleRate == y.SampleRate, x.ChannelCount == y.ChannelCount))
+	case *format.VP9:
+		y, ok := b.(*format.VP9)
+		return ok && zzSameOptInt(x.MaxFR, y.MaxFR) && zzSameOptInt(x.MaxFS, y.MaxFS) && zzSameOptInt(x.ProfileID, y.ProfileID) && x.PayloadTyp == y.PayloadTyp
+	case *format.AV1:
+		y, ok := b.(*format.AV1)
+		return ok && zzSameOptInt(x.LevelIdx, y.LevelIdx) && zzSameOptInt(x.Profile, y.Profile) && zzSameOptInt(x.Tier, y.Tier) && x.PayloadTyp == y.PayloadTyp
+	case *format.KLV:
+		y, ok := b.(*format.KLV)
+		return ok && x.PayloadTyp == y.PayloadTyp
+	case *format.MPEG1Audio:
+		_, ok := b.(*format.MPEG1Audio)
+		return ok
+	case *format.MPEG1Video:
+		_, ok := b.(*format.MPEG1Video)
+		return ok
+	case *format.MJPEG:
+		_, ok := b.(*format.MJPEG)
+		return ok
+	case *format.H264:
+		y, ok := b.(*format.H264)
+		return ok && zzAnd(x.PayloadTyp == y.PayloadTyp, x.PacketizationMode == y.PacketizationMode) && y.SPS == nil && y.PPS == nil
+	case *format.Vorbis:
+		y, ok := b.(*format.Vorbis)
+		return ok && zzAnd(x.PayloadTyp == y.PayloadTyp, zzAnd(x.SampleRate == y.SampleRate, x.ChannelCount == y.ChannelCount)) && zzBytesEq(x.Configuration, y.Configuration)
 	}
 	return false
 }
